@@ -56,6 +56,10 @@ theorem sinv_of_legalFrom {dt : Data} (hNZ : DataNZ dt) {s s' : Store} (hs : SIn
       exact hs.2.2.1) hrun
   exact ⟨(h7 s' hmem).1, (h7 s' hmem).2.1, h6 s' hmem, (h7 s' hmem).2.2⟩
 
+/-- the empty tree `Tree(grid_size)` satisfies the store invariants -/
+theorem sinv_init (dt : Data) : SInv dt (Store.init dt) :=
+  ⟨(inv_init' dt).1, (inv_init' dt).2.1, C06.cacheOK_init dt, (inv_init' dt).2.2⟩
+
 theorem sinv_relabel {dt : Data} {s : Store} (hs : SInv dt s) : SInv dt s.relabelNodes :=
   ⟨(relabelNodes_inv hs.1).1.1, (relabelNodes_inv hs.1).1.2, C06.cacheOK_relabel dt s hs.2.2.1,
     relabelNodes_aligned hs.1 hs.2.2.2⟩
